@@ -26,7 +26,8 @@ COMPONENTS_STUB = ["UDP socket (SimSocket)", "scripted clients (reference codec)
 ASSUMPTIONS = ["a renderable error's own code and message are its class/instance attributes `code` and `message`",
                "'bare 5.00' is taken to mean code 5.00 with an empty payload"]
 EXPECTED_PROBES = ["renderable_error", "generic_exception", "wrong_return_type", "failing_renderer", "slow_failure",
-                   "default_code", "not_found", "method_not_allowed", "not_a_server", "concurrent_neighbours", "gc_while_handler_waits", "non_renderable_with_to_message", "request_over_tcp"]
+                   "default_code", "not_found", "method_not_allowed", "not_a_server", "concurrent_neighbours", "gc_while_handler_waits", "non_renderable_with_to_message", "request_over_tcp",
+                   "observation_declined", "crowd_of_pending_requests", "crowd_above_64"]
 
 SECRET = "SECRET-9f3a-MARKER"
 METHODS = {"GET": 1, "POST": 2, "PUT": 3, "DELETE": 4, "FETCH": 5, "PATCH": 6, "IPATCH": 7}
@@ -38,7 +39,7 @@ RENDERABLE = ['BadGateway', 'BadOption', 'BadRequest', 'Conflict', 'Construction
 RET_CODES = [rc.CONTENT, rc.CREATED, rc.CHANGED, rc.DELETED, rc.VALID, rc.BAD_REQUEST, rc.code(5, 3), rc.code(4, 29)]
 KINDS = ["ret_code", "ret_nocode", "raise_renderable", "raise_renderable_text", "raise_generic", "ret_none", "ret_str",
          "ret_int", "ret_tuple", "renderer_raises", "renderer_none", "missing", "get_only", "ret_unserializable",
-         "raw_render_nonmessage", "wait_weak", "raise_wrapping", "raise_ducky"]
+         "raw_render_nonmessage", "wait_weak", "raise_wrapping", "raise_ducky", "obs_decline_ret", "obs_decline_raise"]
 
 
 def gen_req(r, i):
@@ -46,9 +47,15 @@ def gen_req(r, i):
                        (3, "raise_generic"), (1, "ret_none"), (1, "ret_str"), (1, "ret_int"), (1, "ret_tuple"),
                        (2, "renderer_raises"), (1, "renderer_none"), (2, "missing"), (2, "get_only"),
                        (2, "ret_unserializable"), (1, "raw_render_nonmessage"), (2, "wait_weak"),
-                       (2, "raise_wrapping"), (1, "raise_ducky")])
+                       (2, "raise_wrapping"), (1, "raise_ducky"), (1, "obs_decline_ret"), (2, "obs_decline_raise")])
     q = {"id": i, "kind": kind, "method": r.choice(list(METHODS)), "con": r.chance(0.7), "slow": r.chance(0.35),
          "client": 0}
+    if kind.startswith("obs_decline"):
+        # a request asking to observe (Observe: 0) a resource that can be observed in principle but turns this
+        # particular request down (does not accept the observation) and answers / fails like any other handler
+        q["method"] = r.choice(["GET", "FETCH"])
+        if kind == "obs_decline_raise":
+            q["cls"] = r.choice(RENDERABLE)
     if kind == "ret_code":
         q["code"] = r.choice(RET_CODES)
     if kind.startswith("raise_renderable"):
@@ -81,8 +88,13 @@ def gen(r, tier):
         reqs.append(q)
     # the garbage collector is part of the schedule: it is off while a run proceeds and runs exactly at these times
     gc_at = sorted(round(r.uniform(0, t + 3), 3) for _ in range(r.choice([0, 1, 2, 4])))
+    crowd = None
+    if r.chance(0.08):
+        # many long-lived requests are in processing (parked handlers or established observations, each from another
+        # endpoint) while the requests above come in: nothing about them may depend on how many others are pending
+        crowd = {"kind": r.choice(["park", "observe"]), "n": r.choice([20, 70, 130, 300]), "release": round(t + 5.0, 3)}
     return {"reqs": reqs, "nosite": r.chance(0.05), "net": faults.swarm(r, kinds=("drop", "dup", "delay")),
-            "stall": r.chance(0.1), "gc_at": gc_at, "same_host": r.chance(0.3), "v4": r.chance(0.15)}
+            "stall": r.chance(0.1), "gc_at": gc_at, "same_host": r.chance(0.3), "v4": r.chance(0.15), "crowd": crowd}
 
 
 def systematic(tier):
@@ -96,8 +108,12 @@ def systematic(tier):
             variants = ["RuntimeError", "KeyError", "LookupError", "AttributeError", "TimeoutError", "OSError", "UnicodeDecodeError"]
         if kind.startswith("raise_renderable"):
             variants = RENDERABLE if (tier == "thorough" or kind == "raise_renderable") else RENDERABLE[::5]
+        if kind == "obs_decline_raise":
+            variants = RENDERABLE[::5]
         for v in variants:
             for method in (METHODS if tier == "thorough" else ("GET", "POST", "DELETE", "IPATCH")):
+                if kind.startswith("obs_decline") and method not in ("GET", "FETCH"):
+                    continue
                 for con in (True, False):
                     for slow in (False, True):
                         if tier == "quick" and slow and (i % 3):
@@ -108,7 +124,7 @@ def systematic(tier):
                              "repeat": None}
                         if kind == "ret_code":
                             q["code"] = v
-                        if kind.startswith("raise_renderable"):
+                        if kind.startswith("raise_renderable") or kind == "obs_decline_raise":
                             q["cls"] = v
                         if kind == "raise_generic":
                             q["exc"] = v
@@ -126,6 +142,11 @@ def systematic(tier):
     for con in (True, False):
         out.append({"reqs": [{"id": 0, "kind": "ret_nocode", "method": "GET", "con": con, "slow": False, "client": 0,
                               "t": 0.0, "repeat": None}], "nosite": True, "net": {}, "stall": False})
+    for ck in ("park", "observe"):
+        for n in ((20, 100) if tier == "quick" else (20, 64, 65, 100, 500)):
+            out.append({"reqs": [{"id": k, "kind": kd, "method": "GET", "con": k % 2 == 0, "slow": k == 1, "client": k % 2, "t": 0.5 + k,
+                                  "repeat": None, "cls": "NotFound"} for k, kd in enumerate(("ret_nocode", "raise_renderable", "missing"))],
+                        "nosite": False, "net": {}, "stall": False, "crowd": {"kind": ck, "n": n, "release": 10.0}})
     return out
 
 
@@ -140,6 +161,14 @@ def shrink(scn):
         c = dict(scn)
         c["net"] = {}
         yield c
+    if scn.get("crowd"):
+        c = dict(scn)
+        c["crowd"] = None
+        yield c
+        if scn["crowd"]["n"] > 2:
+            c = dict(scn)
+            c["crowd"] = dict(scn["crowd"], n=scn["crowd"]["n"] // 2)
+            yield c
     for i, q in enumerate(reqs):
         for key, val in (("slow", False), ("repeat", None)):
             if q.get(key):
@@ -298,6 +327,36 @@ def execute(sim, scn):
                 await asyncio.sleep(0.3)
             return SECRET + " not a message"
 
+    class Declining(resource.ObservableResource):
+        """observable in principle; turns every observation request down (never accepts) and then answers or fails"""
+
+        async def add_observation(self, request, serverobservation):
+            sim.probe("observation_declined")
+
+        async def render_get(self, request):
+            rid = int(request.opt.uri_query[0][2:])
+            q = specs[rid]
+            invocations.append((loop.now, rid))
+            if q["slow"]:
+                await asyncio.sleep(0.3)
+            if q["kind"] == "obs_decline_raise":
+                raise getattr(error, q["cls"])()
+            return Message(payload=b"P%d" % rid)
+
+        render_fetch = render_get
+
+    park_release = []
+
+    class Park(resource.ObservableResource):
+        """long-lived requests: handlers parked until released, and regular observations"""
+
+        async def render_get(self, request):
+            if request.opt.observe is None:
+                fut = loop.create_future()
+                park_release.append(fut)
+                await fut
+            return Message(payload=b"parked")
+
     class GetOnly(resource.Resource):
         async def render_get(self, request):
             rid = int(request.opt.uri_query[0][2:])
@@ -311,6 +370,8 @@ def execute(sim, scn):
         site.add_resource(["zoo"], Zoo())
         site.add_resource(["getonly"], GetOnly())
         site.add_resource(["raw"], RawRender())
+        site.add_resource(["declining"], Declining())
+        site.add_resource(["park"], Park())
         if not any(q.get("tcp") for q in scn["reqs"]):
             return await sim.server(None if scn.get("nosite") else site, common.SERVER_IP)
         from simkit.stream import SimStreamNet
@@ -358,9 +419,11 @@ def execute(sim, scn):
         cl = clients[q["client"]]
         token = bytes([0xD0, q["id"]])
         tokens[q["id"]] = (cl.addr, token)
-        path = {"missing": b"nowhere", "get_only": b"getonly", "raw_render_nonmessage": b"raw"}.get(q["kind"], b"zoo")
+        path = {"missing": b"nowhere", "get_only": b"getonly", "raw_render_nonmessage": b"raw", "obs_decline_ret": b"declining",
+                "obs_decline_raise": b"declining"}.get(q["kind"], b"zoo")
         m = {"type": rc.CON if q["con"] else rc.NON, "code": METHODS[q["method"]], "mid": 0x100 + q["id"],
-             "token": token, "options": [(rc.URI_PATH, path), (rc.URI_QUERY, b"r=%d" % q["id"])], "payload": b""}
+             "token": token, "options": ([(rc.OBSERVE, b"")] if q["kind"].startswith("obs_decline") else []) +
+             [(rc.URI_PATH, path), (rc.URI_QUERY, b"r=%d" % q["id"])], "payload": b""}
         if q.get("tcp"):
             def send_tcp(q=q, m=m):
                 p = tcp_peers[q["client"]]
@@ -382,6 +445,26 @@ def execute(sim, scn):
             cl.send(srv, raw=raw, fate=["at", q["t"] + q["repeat"]])
     for tg in scn.get("gc_at", []):
         loop.at(tg, collect)
+    crowd = scn.get("crowd") if not scn.get("nosite") else None
+    crowd_tokens = []
+    if crowd:
+        sim.probe("crowd_of_pending_requests")
+        if crowd["n"] > 64:
+            sim.probe("crowd_above_64")
+        crowd_ip = common.PEER_IPS[2]
+        for i in range(crowd["n"]):
+            ep = Client(sim, crowd_ip, 20000 + i)
+            tok = bytes([0xC0, i >> 8, i & 255])
+            crowd_tokens.append((ep.addr, tok))
+            m = {"type": rc.NON, "code": rc.GET, "mid": 0x4000 + i, "token": tok,
+                 "options": ([(rc.OBSERVE, b"")] if crowd["kind"] == "observe" else []) + [(rc.URI_PATH, b"park")], "payload": b""}
+            ep.send(srv, raw=rc.encode(m), fate=["at", round(0.001 + i * 0.0001, 6)])
+
+        def release():
+            for f in park_release:
+                if not f.done():
+                    f.set_result(None)
+        loop.at(crowd["release"], release)
     if len(scn["reqs"]) > 1:
         ts = sorted(q["t"] for q in scn["reqs"])
         if any(b - a < 0.3 for a, b in zip(ts, ts[1:])):
@@ -412,6 +495,14 @@ def execute(sim, scn):
         tcp_rx[ci] = [{"msg": dict(m, type=None), "data": bytes(p.rx[a:b]), "t": None} for (a, b, m, err) in frames if m is not None]
         if SECRET.encode() in bytes(p.rx):
             sim.violation("C09/exception-text-leaked", {"transport": "tcp", "stream": bytes(p.rx).hex()[:200]})
+    for (caddr, ctok) in crowd_tokens:
+        resp = {e["data"] for e in wire if e["src"] == srv and e["dst"] == caddr and e["msg"] is not None
+                and e["msg"]["token"] == ctok and e["msg"]["code"] >= 64}
+        if len(resp) != 1:
+            sim.violation("C09/no-final-response" if not resp else "C09/more-than-one-final-response",
+                          {"req": "one of %d long-lived requests (%s)" % (crowd["n"], crowd["kind"]), "member": ctok[1] * 256 + ctok[2],
+                           "n": len(resp)})
+            break
     for q in scn["reqs"]:
         cl_addr, token = tokens[q["id"]]
         ident = {"req": q["id"], "kind": q["kind"], "method": q["method"], "con": q["con"], "slow": q["slow"],
@@ -460,6 +551,13 @@ def execute(sim, scn):
                 exp_code = rc.METHOD_NOT_ALLOWED
         elif k == "ret_code":
             exp_code, exp_payload = q["code"], b"P%d" % q["id"]
+        elif k == "obs_decline_ret":
+            exp_code, exp_payload = rc.CONTENT, b"P%d" % q["id"]
+        elif k == "obs_decline_raise":
+            sim.probe("renderable_error")
+            inst = getattr(error, q["cls"])()
+            exp_code = int(inst.code)
+            exp_payload = inst.message.encode("utf8")
         elif k in ("ret_nocode", "wait_weak"):
             sim.probe("default_code")
             exp_code = {"GET": rc.CONTENT, "FETCH": rc.CONTENT, "DELETE": rc.DELETED}.get(q["method"], rc.CHANGED)
